@@ -145,6 +145,10 @@ func (m *vMonitor) Overlap() string {
 }
 
 func (m *vMonitor) request(name string, f func()) {
+	if vMonQuiet {
+		f()
+		return
+	}
 	if atomic.LoadInt32(&m.inProcess) != 0 {
 		m.note(name + " started while a data block was being processed")
 	}
@@ -186,7 +190,17 @@ func (m *vMonitor) setPark(c chan struct{}) {
 	m.mu.Unlock()
 }
 
+// vMonQuiet switches the monitor's own bookkeeping off.  The race check sets it: the monitor's atomic counters
+// would otherwise order the core loop before the harness goroutine that polls them, and hide real races.
+var vMonQuiet bool
+
 func (w *vMon) ProcessSegments(b *dataBlock) error {
+	if vMonQuiet {
+		if w.mon.slow > 0 {
+			time.Sleep(w.mon.slow)
+		}
+		return w.DataSource.ProcessSegments(b)
+	}
 	if atomic.LoadInt32(&w.mon.inRequest) != 0 {
 		w.mon.note("block processing started while a control request was being applied")
 	}
